@@ -34,6 +34,8 @@ TEMPLATES = ['plain text', 'k={k}', 'k={k} unit={unit}', 'n={n} k={k}', '{k:name
              '{k:frame}|{n:line}', '{k:python_expression}{k:output}', '{k:traceback}', '{k:inputs}', '{k:exception}',
              '{k:python_code}', '{{literal}} {k}', '{missing}', '{k:name} {missing:name}',
              # attribute and index access on a field (str.format resolves them on the wrapped field)
+             # width / alignment: applied to the text of the field, whatever it holds (an int is not right-aligned, a bool stays True)
+             '[{n:4}] [{k:>6}]', '|{k:^9}|{n:<3}|', '{n:5}|', 'n={n:3} k={k:3}', '{k:6}{n:6}',
              'call {fn.__name__} first', 'call {fn.__name__:name} first ({fn.__qualname__!r})', '{k.real} and {n[0]}', '{n[0]:name}']
 FIELD_VALUES = ['abc', 'x y', '__dunder__', '<tag>', 7, 0, '']
 SPECS = ['exception', 'filename', 'frame', 'traceback', 'inputs', 'line', 'name', 'output', 'python_code',
@@ -163,8 +165,10 @@ def render_reference(template, fields, formatter):
             out.append(repr(value))
         elif conv == 's' or not spec:
             out.append(str(value))
-        else:
+        elif spec in SPECS:
             out.append(format(getattr(formatter, spec)(value), ''))
+        else:
+            out.append(format(str(value), spec))      # not the name of a formatter method: an ordinary spec for the field's text
     return ''.join(out)
 
 
